@@ -676,7 +676,7 @@ static void long_cfg(vs_config_t* c) {
   c->stall_len = g_long_stall;
   c->stall_spins = (1ull << 26) + (1ull << 22);
   c->soft_budget = c->hard_budget = g_hard + 2 * g_long_stall;
-  g_wall_limit = 180.0;
+  g_wall_limit = 60.0;  // a long run that is this slow (many hand-overs per poll) is given up as inconclusive
 }
 
 // JSON helpers
